@@ -193,11 +193,12 @@ TraceNext ==
                 ELSE Verdict([l |-> l, ev |-> "macro", kind |-> "MISMATCH", dev |-> "",
                               why |-> <<ev.err, ev.macro_ok, ev.ref_ok, ev.same, ev.macro_code, ev.ref_code, ev.diag>>]))
             /\ UNCHANGED st
-       \* a chain of nested macro uses must expand (no abort, no hang) to what the innermost body says
+       \* a chain of nested macro uses must expand (no abort, no hang) to what the innermost body says; the only
+       \* other admitted outcome is the named deviation (refused with the nesting diagnostic beyond MaxNesting)
        [] ev.ev = "chain" ->
             /\ (IF ev.status = 0 /\ ~ev.timeout /\ ev.ok /\ ev.same THEN TRUE
-                ELSE IF \E d \in KnownDeviations : DevChainApplies(d, ev.depth, ev.status, ev.timeout)
-                THEN Verdict([l |-> l, ev |-> "chain", kind |-> "KNOWN", dev |-> "Dev_DeepMacroChainAborts", why |-> <<ev.depth, ev.status>>])
+                ELSE IF \E d \in KnownDeviations : DevChainApplies(d, ev.depth, ev.status, ev.timeout, ev.ok, ev.deep)
+                THEN Verdict([l |-> l, ev |-> "chain", kind |-> "KNOWN", dev |-> "Dev_MacroNestingLimit", why |-> <<ev.depth, ev.status>>])
                 ELSE Verdict([l |-> l, ev |-> "chain", kind |-> "MISMATCH", dev |-> "", why |-> <<ev.depth, ev.status, ev.timeout, ev.err>>]))
             /\ UNCHANGED st
        \* all word pairs of one operation against the byte tables composed by the ripple lemma (C01)
